@@ -265,6 +265,69 @@ fn damaged_texts(tier: Tier) -> Vec<String> {
                     }
                 }
             }
+            // two xml:id values that are equal only after normalisation (padding on either one)
+            {
+                let mut occ: Vec<(usize, usize)> = vec![];
+                let mut from = 0;
+                while let Some(i) = t[from..].find("xml:id=") {
+                    let at = from + i + 7;
+                    if let Some(q) = t[at..].chars().next() {
+                        if q == '"' || q == '\'' {
+                            if let Some(e) = t[at + 1..].find(q) {
+                                occ.push((at + 1, at + 1 + e));
+                            }
+                        }
+                    }
+                    from = at;
+                }
+                for (i, a) in occ.iter().enumerate() {
+                    for (j, b) in occ.iter().enumerate() {
+                        if i != j {
+                            // occurrence j gets a padded copy of the value of occurrence i
+                            let va = &t[a.0..a.1];
+                            for padded in [format!(" {}  ", va), va.replace(' ', "   "), va.to_string()] {
+                                let mut d = String::new();
+                                d.push_str(&t[..b.0]);
+                                d.push_str(&padded);
+                                d.push_str(&t[b.1..]);
+                                push(d);
+                            }
+                        }
+                    }
+                }
+            }
+            // use every declared prefix in an element inserted after every tag: inside the scope of the
+            // declaration this is fine, outside it is an undeclared prefix
+            {
+                let mut prefixes: Vec<String> = vec![];
+                let mut rest = t.as_str();
+                while let Some(i) = rest.find("xmlns:") {
+                    let after = &rest[i + 6..];
+                    if let Some(eq) = after.find('=') {
+                        let p = after[..eq].trim().to_string();
+                        if !p.is_empty() && !prefixes.contains(&p) {
+                            prefixes.push(p);
+                        }
+                    }
+                    rest = &rest[i + 6..];
+                }
+                for p in &prefixes {
+                    for (i, ch) in t.char_indices() {
+                        if ch == '>' && !t[..i].ends_with('?') && !t[..i].ends_with("--") {
+                            let mut d = String::new();
+                            d.push_str(&t[..=i]);
+                            d.push_str(&format!("<{}:zz/>", p));
+                            d.push_str(&t[i + 1..]);
+                            push(d);
+                            let mut d = String::new();
+                            d.push_str(&t[..=i]);
+                            d.push_str(&format!("<zz {}:w='1'/>", p));
+                            d.push_str(&t[i + 1..]);
+                            push(d);
+                        }
+                    }
+                }
+            }
             push(t.replace("&amp;", "&#0;"));
             push(t.replace("&lt;", "&bogus;"));
             push(t.replace("version=\"1.0\"", "version=\"1.1\""));
